@@ -203,9 +203,23 @@ def typestate(repo, chk):
         isinstance(x, ast.Attribute) and x.attr == f for x in ast.walk(n.ast)))]
     need(0 < len(flags) <= 10, 'unexpected number of configuration flags: %s' % flags)
 
+    def clears_lines_stmt(s):
+        # region.lines = [] | region.lines.clear() | del region.lines[:] | region.lines[:] = []
+        if isinstance(s, ast.Assign) and isinstance(s.targets[0], ast.Attribute) and s.targets[0].attr == 'lines' and isinstance(s.value, ast.List) and not s.value.elts:
+            return True
+        if isinstance(s, ast.Expr) and isinstance(s.value, ast.Call) and isinstance(s.value.func, ast.Attribute) and s.value.func.attr == 'clear' \
+                and isinstance(s.value.func.value, ast.Attribute) and s.value.func.value.attr == 'lines' and not s.value.args:
+            return True
+        full = lambda t: isinstance(t, ast.Subscript) and isinstance(t.slice, ast.Slice) and t.slice.lower is None and t.slice.upper is None \
+            and isinstance(t.value, ast.Attribute) and t.value.attr == 'lines'
+        if isinstance(s, ast.Delete) and len(s.targets) == 1 and full(s.targets[0]):
+            return True
+        if isinstance(s, ast.Assign) and full(s.targets[0]) and isinstance(s.value, ast.List) and not s.value.elts:
+            return True
+        return False
+
     def clears_lines_loop(n):
-        return n.kind == 'for' and any(isinstance(s, ast.Assign) and isinstance(s.targets[0], ast.Attribute) and s.targets[0].attr == 'lines' and
-                                       isinstance(s.value, ast.List) and not s.value.elts for s in n.ast.body) and 'regions' in src(n.ast.iter)
+        return n.kind == 'for' and any(clears_lines_stmt(s) for s in n.ast.body) and 'regions' in src(n.ast.iter)
 
     def join(a, b):
         out = {}
@@ -274,10 +288,13 @@ def typestate(repo, chk):
                 done.pop('iter:%d' % nid, None)
                 push(nid, 'done', done)
                 continue
-            if n.kind == 'stmt' and isinstance(a, ast.Assign):
-                t = a.targets[0]
-                tv = src(t)
-                if tv.endswith('.regions') and isinstance(a.value, ast.List) and not a.value.elts:
+            if n.kind == 'stmt' and isinstance(a, (ast.Assign, ast.Expr, ast.AugAssign, ast.Return)) and a.value is not None:
+                # the call may stand in an assignment, alone in a statement (its result dropped) or in an update
+                t = a.targets[0] if isinstance(a, ast.Assign) else (a.target if isinstance(a, ast.AugAssign) else None)
+                tv = src(t) if t is not None else ''
+                if not isinstance(a, ast.Assign):
+                    pass
+                elif tv.endswith('.regions') and isinstance(a.value, ast.List) and not a.value.elts:
                     new['O'] = CLEARED
                 elif isinstance(t, ast.Name) and isinstance(a.value, ast.List) and not a.value.elts:
                     new[t.id] = FRESH
@@ -328,4 +345,6 @@ def typestate(repo, chk):
             common = {f: envs[0][f] for f in flags if all(e[f] == envs[0][f] for e in envs)}
             chk.ob('TYPESTATE', fi, c, 'region list handed to assign_lines_to_regions is fresh or cleared on every path', False,
                    msg + ' when %s; line ids are region id + per-call line index, so a second pass over the same regions repeats ids' % common,
-                   construct='assign call #%d: %s' % (sorted(calls, key=lambda x: (x.lineno, x.col_offset)).index(c), kind))
+                   robust=kind in ('own regions re-used', 'filled list passed again'),     # a path was found, whatever the function looks like
+                   construct='assign call #%d: %s when %s' % (sorted(calls, key=lambda x: (x.lineno, x.col_offset)).index(c), kind,
+                                                              ', '.join('%s=%s' % (f, common[f]) for f in sorted(common))))
